@@ -199,7 +199,7 @@ def table(P, f, atom_names, assignments, args=None):
 
 
 STRUCTURAL_PROPS = [
-    (r'ItemPath', ['C09', 'C11', 'C14', 'C19']),
+    (r'ItemPath', ['C09', 'C11', 'C14', 'C19', 'C10']),
     (r'function::(Function|Argument|CallingConvention|FunctionBody)', ['C06', 'C04', 'C07', 'C16']),
     (r'semantic::types::Type$|grammar::Type$', ['C06', 'C10', 'C11']),
     (r'Region|TypeDefinition|TypeVftable', ['C01', 'C06']),
